@@ -131,7 +131,11 @@ func genC11(rng *rand.Rand, tier string) *sim.Plan {
 		}
 	}
 	p.Phases = append(p.Phases, fin)
-	maybeRedis(rng, p, 0.2)
+	if maybeRedis(rng, p, 0.25) && chance(rng, 0.5) {
+		// storage fault while a session ends: removing the session record fails. The session is over all the same
+		// (its client is gone): the leaver must be out of its groups
+		p.Params["redis_err_match"] = pick(rng, []string{"del session:", "del queue:"})
+	}
 	return p
 }
 
